@@ -3,7 +3,8 @@
   incidence state.  The state has the four lookup functions of `DiHypergraph` under the names of
   C02/DHG.lean (`membIn n = _node[n]["in"]`, `membOut n = _node[n]["out"]`, `tail e = _edge[e]["in"]`,
   `head e = _edge[e]["out"]`); it is installed by the driver from the tables the implementation shows
-  (the directed state machine itself is property C02's model and is not imported here).
+  (the directed state machine itself is property C02's model; C06/Bridge.lean maps its states into
+  `DiSt` and transfers C02's invariant, so the directed theorems hold at every state reachable there).
 
   Every directed statistic reads one node-side table and one edge-side table, so each is the undirected
   function of Views.lean on a *projection* of the state:
@@ -14,7 +15,7 @@
      `tail_size`/…       members tail,           node degree |in ∪ out|          → `tailStat`
      `head_size`/…       members head,           node degree |in ∪ out|          → `headStat`
   The view queries (neighbors, lookup, duplicates, isolates, empty, filters) are the undirected ones on
-  `tot` — the code with proposed_fixes/C06-3-directed-view-queries.diff applied, where the bipartite
+  `tot` — the code after fix 0818101 (finding F6c), where the bipartite
   neighbours of a directed ID are its members / memberships regardless of direction.
   No Mathlib.
 -/
